@@ -270,29 +270,63 @@ def fraction_to_q(fr):
     return [n, d, e]
 
 
-def float_to_q(x, max_den=10 ** 6, rel=1e-9):
-    """nearest small scaled rational of an f64, or None ("irrational" for the spec's purposes).
-    Part of the trusted projection (DESIGN 4.3)."""
+def _simplest_within(fx, tol, max_den):
+    from math import floor
+    n0, d0, n1, d1 = 0, 1, 1, 0
+    x = fx
+    for _ in range(64):
+        a = floor(x)
+        n2, d2 = a * n1 + n0, a * d1 + d0
+        if d2 > max_den:
+            return None
+        c = Fraction(n2, d2)
+        if abs(c - fx) <= tol:
+            return c
+        frac = x - a
+        if frac == 0:
+            return c
+        x = 1 / frac
+        n0, d0, n1, d1 = n1, d1, n2, d2
+    return None
+
+
+def float_to_qs(x, max_den=2 * 10 ** 9, rel=1e-9):
+    """the small scaled rationals an f64 can reasonably be read as: for a ladder of tolerances from a few ulps up to `rel`
+    the *simplest* fraction inside the tolerance (first continued-fraction convergent), plus the closest fraction with a
+    denominator up to 10^6. Every candidate lies within `rel` of x, so accepting "the exact expectation is one of them" is
+    the comparison at `rel` that the replay direction makes, decided inside TLC by equality. Part of the trusted projection
+    (DESIGN 4.3). Returns [] for a value that has no such reading ("irrational" for the specification's purposes)."""
     if x != x or x in (float("inf"), float("-inf")):
-        return None
+        return []
+    if abs(x) < 1e-12:       # absolute tolerance at zero: a cancellation residue such as 7 - 7.000000000000001
+        return [[0, 1, 0]]
     fx = Fraction(x)
-    if abs(x) < 1e-12:       # absolute tolerance at zero (DESIGN 4.3): a cancellation residue such as 7 - 7.000000000000001
-        return [0, 1, 0]
-    # bring very large values into range by a power of 1000
     scale = 0
     y = fx
     while abs(y) >= 10 ** 9 and scale < 24:
         y /= 1000
         scale += 3
-    c = y.limit_denominator(max_den)
-    if c == 0:
-        return None
-    if abs(c - y) > abs(y) * Fraction(rel):
-        return None
-    q = fraction_to_q(c * (10 ** scale))
-    if abs(q[0]) > INT_MAX or q[1] > INT_MAX:
-        return None
-    return q
+    cands = []
+    for tol in (Fraction(1, 2 ** 49), Fraction(1, 10 ** 14), Fraction(1, 10 ** 13), Fraction(1, 10 ** 12), Fraction(1, 10 ** 11), Fraction(1, 10 ** 10), Fraction(rel)):
+        if tol <= Fraction(rel):
+            cands.append(_simplest_within(y, abs(y) * tol, max_den))
+    cands.append(y.limit_denominator(10 ** 6))
+    out = []
+    for c in cands:
+        if c is None or c == 0 or abs(c - y) > abs(y) * Fraction(rel):
+            continue
+        q = fraction_to_q(c * (10 ** scale))
+        if abs(q[0]) > INT_MAX or q[1] > INT_MAX:
+            continue
+        if q not in out:
+            out.append(q)
+    return out
+
+
+def float_to_q(x, max_den=2 * 10 ** 9, rel=1e-9):
+    """the tightest reading (see float_to_qs), or None"""
+    qs = float_to_qs(x, max_den, rel)
+    return qs[0] if qs else None
 
 
 def close(expected_fr, x, rel=1e-9, abs_zero=1e-12):
